@@ -160,6 +160,8 @@ structure Facts where
   connect : Option String := none
   afterEnd : Bool := false       -- something observable happened after evend/dropped that must not
   idleBeforeAuth : Bool := false
+  greetClean : Bool := true      -- the delivery that completed the greeting line ended with it
+  verdictBad : Bool := false     -- connect's outcome is not what the delivered password verdict says
   pwReplyEnd : Option Nat := none
   writes : Bytes := []
 deriving Inhabited
@@ -277,7 +279,12 @@ def handle (toks : List String) (impl : String) : Verdict :=
       let (pa, seg) := pa
       let f := match pa with
         | .change n => { f with sv := Spec.Server.change f.sv n }
-        | .act (.deliver b) => { f with delivered := f.delivered ++ b }
+        | .act (.deliver b) =>
+          let had := (Spec.firstLine f.delivered).isSome
+          let now := f.delivered ++ b
+          let clean := if had then f.greetClean else
+            match Spec.firstLine now with | some (_, rest) => rest.isEmpty | none => true
+          { f with delivered := now, greetClean := clean }
         | .act (.both _ _ d) => { f with delivered := f.delivered ++ d }
         | .act .eof =>
           let bodyNow : Bytes := match Spec.firstLine f.delivered with | some (_, rest) => rest | none => []
@@ -315,7 +322,17 @@ def handle (toks : List String) (impl : String) : Verdict :=
           let bodyNow : Bytes := match Spec.firstLine f.delivered with | some (_, rest) => rest | none => []
           -- judged only while the peer is honest (what was delivered is what the specification server wrote)
           let bad := p.startsWith "conn=ok" && password.isSome && startsWith f.sv.out bodyNow && !(startsWith bodyNow (str "OK\n"))
-          { f with connect := some (p.drop 5).toString, connNoAccept := f.connNoAccept || bad }
+          -- the verdict, decoded by the reference decoder from what was delivered after the greeting
+          -- (only when nothing was delivered together with the greeting: `connect` discards that):
+          -- any complete reply with an ACK is a rejection, one without is an acceptance, anything
+          -- else is neither
+          let vbad := password.isSome && f.greetClean &&
+            (match Spec.refDecode (bodyNow.length + 2) {} bodyNow with
+             | .resp _ (some _) :: _ => !(p.startsWith "conn=badpw")
+             | .resp _ none :: _ => !(p.startsWith "conn=ok")
+             | _ => p.startsWith "conn=ok" || p.startsWith "conn=badpw")
+          { f with connect := some (p.drop 5).toString, connNoAccept := f.connNoAccept || bad,
+                   verdictBad := f.verdictBad || vbad }
         else f) f
     let f0 : Facts := { sv := { locked := locked } }
     let f := (pacts.zip implSegs).foldl step f0
@@ -393,6 +410,7 @@ def handle (toks : List String) (impl : String) : Verdict :=
       else if on "C18" && honest && !f.sv.authLines.isEmpty then "fail:C18-request-before-password-accepted"
       else if on "C18" && f.idleBeforeAuth then "fail:C18-idle-before-password-accepted"
       else if on "C18" && f.connNoAccept then "fail:C18-connected-without-the-server-accepting-the-password"
+      else if on "C18" && f.verdictBad then "fail:C18-connect-outcome-differs-from-the-delivered-verdict"
       else if on "C05" && honest && connectedOk && password.isNone && !(startsWith f.writes (str "idle\n")) && !f.writes.isEmpty then "fail:C05-first-write-not-idle"
       else if on "C18" && password.isSome && !f.writes.isEmpty && !(startsWith f.writes (password.getD [])) then "fail:C18-password-not-first"
       else if on "C18" && (match f.connect with | some "badpw" => f.writes != password.getD [] | _ => false) then "fail:C18-wrote-after-rejected-password"
